@@ -522,7 +522,22 @@ def _make_dmig(r, variant):
         rl = [rl[int(k)] for k in r.permutation(len(rl))]        # unsorted labels
     facts = {"variant": variant, "dtype": np.dtype(dtype).name, "mag": mag}
     mi = lambda lab: pd.MultiIndex.from_tuples(lab, names=["id", "dof"])
-    if variant in ("sym", "unsym", "nearsym", "smallunsym"):
+    if variant == "hermitian":
+        # complex Hermitian, not symmetric: m == m^H but m != m^T, so it is NOT a form-6
+        # candidate (half storage mirrors without conjugation)
+        dtype = [np.complex128, np.complex64][int(r.integers(0, 2))]
+        facts["dtype"] = np.dtype(dtype).name
+        n = max(n, 2)
+        rl = _labels(r, n)
+        m = _values(r, (n, n), dtype, mag).astype(np.complex128)
+        m = np.tril(m) + np.tril(m, -1).conj().T
+        m[np.diag_indices(n)] = m[np.diag_indices(n)].real
+        if not np.any(np.tril(m, -1).imag):
+            m[1, 0] += 0.5j
+            m[0, 1] -= 0.5j
+        m = m.astype(dtype)
+        df = pd.DataFrame(m, index=mi(rl), columns=mi(rl))
+    elif variant in ("sym", "unsym", "nearsym", "smallunsym"):
         if variant == "smallunsym":
             m = (10.0 ** r.uniform(-12, -8.5, (n, n)) * r.choice([-1, 1], (n, n)))
             if np.dtype(dtype).kind == "c":
@@ -580,7 +595,7 @@ def _make_dmig(r, variant):
 
 
 DVARIANTS = ["sym", "unsym", "difflabels", "rect", "form9", "difflabels", "sym",
-             "nearsym", "smallunsym", "unsym"]
+             "nearsym", "smallunsym", "unsym", "hermitian"]
 
 
 def _expected_frame(df, form):
